@@ -395,6 +395,11 @@ def gen_section(g: Gen, style: str, kind: str, parent: dict, opts: dict, used: s
             it["just_name_form"] = rng.choice(["bare", "colon"])
             it["default_form"] = rng.choice([" ", ": ", "="])
         items.append(it)
+    if style == "numpy" and header.lower() in NUMPY_UNSUPPORTED_ALIASES:
+        # finding C13-F4 turns this section into an admonition read by the main loop, where a dash-only line makes the
+        # line above it a section title: keep the defect-adjusted expectation exact by not writing such lines here
+        for it in items:
+            it["desc"] = [g.prose(1, 3) + "." if (l and not l.replace("-", "").strip()) else l for l in it["desc"]]
     return {"k": kind, "header": header, "title": title, "items": items, "single": single, "named": named}
 
 
